@@ -40,6 +40,18 @@ ASSUMPTIONS = [
     "Heston spot mean: the QE log-spot update without martingale correction carries a discretisation bias; budget 0.02*dt*|rho|*sigma*t-scaled "
     "(see BIAS in the code, calibrated on the unchanged scheme); rough Bergomi log-variance moments: hybrid-scheme budget",
 ]
+ANCHORS = ['pfhedge.stochastic.brownian:generate_brownian',
+           'pfhedge.stochastic.brownian:generate_geometric_brownian',
+           'pfhedge.stochastic.cir:generate_cir',
+           'pfhedge.stochastic.heston:generate_heston',
+           'pfhedge.stochastic.vasicek:generate_vasicek',
+           'pfhedge.stochastic.merton_jump:generate_merton_jump',
+           'pfhedge.stochastic.kou_jump:generate_kou_jump',
+           'pfhedge.stochastic.rough_bergomi:generate_rough_bergomi',
+           'pfhedge.stochastic.local_volatility:generate_local_volatility_process',
+           'pfhedge.stochastic.random:randn_antithetic',
+           'pfhedge.stochastic.engine:RandnSobolBoxMuller.__call__',
+           'pfhedge.nn.functional:box_muller']
 DECIDING = ["pathwise.brownian", "pathwise.geometric", "pathwise.jump_zero_intensity", "law.moments", "random.antithetic", "random.sobol"]
 REQUIRED_BRANCHES = ["cir.psi<=1.5", "cir.psi>1.5", "cir.psi_near_switch", "kou.p_up!=0.5", "via.instrument", "via.generator", "stage2"]
 
